@@ -378,10 +378,16 @@ impl Variant {
             match round_left {
                 Self::VInteger(i_left) => match round_right {
                     Self::VInteger(i_right) => Ok(Self::VInteger(i_left % i_right)),
-                    Self::VLong(_) => Err(VariantError::Overflow),
+                    // a rounded number that does not fit in an integer
+                    Self::VLong(_) | Self::VSingle(_) | Self::VDouble(_) => {
+                        Err(VariantError::Overflow)
+                    }
                     _ => Err(VariantError::TypeMismatch),
                 },
-                Self::VLong(_) => Err(VariantError::Overflow),
+                // a rounded number that does not fit in an integer
+                Self::VLong(_) | Self::VSingle(_) | Self::VDouble(_) => {
+                    Err(VariantError::Overflow)
+                }
                 _ => Err(VariantError::TypeMismatch),
             }
         }
